@@ -1,11 +1,13 @@
 (* C09 — the JSON policy codec round-trips.
    Model: Impl/PolicyJson.v (internal/json: MarshalJSON / UnmarshalJSON + ToNode on JSON trees, Base/Json.v; values through
    Impl/ValueJson.v).  The model's encoder is tied to the code byte-for-tree, its decoder on encoder outputs and structural mutants
-   (py/props/c09.py).  Proofs: Proofs/PolicyJsonProofs.v.
+   (py/props/c09.py).  Proofs: Proofs/PolicyJsonProofs.v; Proofs/CodecCommute.v (policy sets, the two codecs together).
    Parameters: the ipaddr printer (net/netip: modelled in Impl/IPPrint.v, any printer whose output parses back will do) and the member
    order of an encoded set (identity here; the order itself is C11's business). *)
 From Coq Require Import ZArith List Bool.
-From Cedar Require Import Base.Json Lang.Value Impl.Like Lang.Expr Impl.Eval Impl.IPAddr Impl.ValueJson Impl.PolicyJson Proofs.PolicyJsonProofs.
+From Coq Require Import Permutation.
+From Cedar Require Import Base.Json Lang.Value Impl.Like Lang.Expr Impl.Eval Impl.IPAddr Impl.IPPrint Impl.ValueJson Impl.PolicyJson Lang.RoundTrip
+  Proofs.PolicyJsonProofs Proofs.NormMeaning Proofs.IPProofs Proofs.CodecCommute.
 
 Section C09.
   Variable print_ip : bool -> Z -> Z -> str.
@@ -44,6 +46,35 @@ Proof. exact dec_enc_pattern. Qed.
 Theorem C09_patterns_are_canonical : forall cs, pat_canon (compile_pattern cs) = true.
 Proof. exact compile_pattern_canon. Qed.
 
+(* ---- policy sets: {"staticPolicies": {id: policy}} ---- *)
+(* the policy ids are preserved: every id decodes to (the JSON normal form of) its own policy, and no other id appears *)
+Theorem C09_policy_set_ids_preserved : forall ord, (forall l, ord l = l) -> forall ps, NoDup (map fst ps) -> pset_okj ip_ok ps ->
+  exists out, dec_policy_set (enc_policy_set print_ip ord ps) = DOk out /\
+    (forall id ap, In (id, ap) ps -> rec_get id out = Some (ps_norm print_ip ap)) /\
+    (forall id, ~ In id (map fst ps) -> rec_get id out = None) /\
+    Permutation (map fst out) (map fst ps).
+Proof. exact (fun ord H => dec_enc_policy_set_nodup print_ip ord ip_ok ip_roundtrip_concrete H). Qed.
+
+Theorem C09_policy_set_decoder_total : forall j, dec_policy_set j <> DFuel.
+Proof. exact dec_policy_set_total. Qed.
+
+(* ---- the two codecs together ---- *)
+(* text -> JSON -> text and JSON -> text -> JSON reach one common normal form: the normal forms of the two codecs commute
+   (policy_lit_sorted: record literal VALUES have sorted keys - they are Go maps) *)
+Theorem C09_codecs_commute : forall set_order p, policy_lit_sorted p = true ->
+  normj_policy print_ip (norm_policy set_order print_ip p) = norm_policy set_order print_ip (normj_policy print_ip p).
+Proof. exact (fun so => policy_normal_forms_commute so print_ip). Qed.
+
+(* all encodings of one policy authorize identically: the policy read back from text, from JSON, from text then JSON, from JSON then
+   text evaluates to the same Boolean or the same error as the original, in every well-formed environment *)
+Theorem C09_all_encodings_same_outcome : forall set_order, (forall l, Permutation (set_order l) (seq 0 (length l))) ->
+  forall en p, norm_env_wf en -> policy_lit_ok ip_ok p = true ->
+    bool_eval en (policy_to_expr (norm_policy set_order print_ip p)) = bool_eval en (policy_to_expr p) /\
+    bool_eval en (policy_to_expr (normj_policy print_ip p)) = bool_eval en (policy_to_expr p) /\
+    bool_eval en (policy_to_expr (normj_policy print_ip (norm_policy set_order print_ip p))) = bool_eval en (policy_to_expr p) /\
+    bool_eval en (policy_to_expr (norm_policy set_order print_ip (normj_policy print_ip p))) = bool_eval en (policy_to_expr p).
+Proof. exact (fun so H => all_encodings_same_outcome so print_ip ip_ok ip_roundtrip_concrete H). Qed.
+
 Print Assumptions C09_expr_roundtrip.
 Print Assumptions C09_policy_roundtrip.
 Print Assumptions C09_normal_form_idempotent.
@@ -51,3 +82,7 @@ Print Assumptions C09_second_roundtrip.
 Print Assumptions C09_normal_form_same_meaning.
 Print Assumptions C09_pattern_roundtrip.
 Print Assumptions C09_patterns_are_canonical.
+Print Assumptions C09_policy_set_ids_preserved.
+Print Assumptions C09_policy_set_decoder_total.
+Print Assumptions C09_codecs_commute.
+Print Assumptions C09_all_encodings_same_outcome.
